@@ -791,6 +791,31 @@ def rule_erasure_arity(ctx):
         ctx.check(k >= 1 and not opens, rule, "materialized_product_components_k:no-unroll", "the materialized components of a field route "
                   "are enumerated through an unrolling view (%s) or without a Prod pattern" % [H.callee(c) for c in opens],
                   facts.bodies()[fn]["loc"])
+    # the stack-IR lowerer lays a tuple out by the same count: its arity / field enumeration follows Prod only
+    for short in ("product_arity", "product_fields"):
+        fn = "zydeco_stackir::sps::lower::Lowerer::<'a>::" + short
+        h = facts.hir(fn)
+        if h is None:
+            ctx.anchor_lost(rule, fn + " not found")
+            continue
+        ctx.fn(fn)
+        k = 0
+        for m in H.walk(h["body"]):
+            if H.kind(m) != "Match" or m.get("src"):
+                continue
+            for a in m["arms"]:
+                vs = set(v.split("::")[-1] for v in H.pat_variants(a["pat"])) - {"Some", "None", "Ok", "Err"}
+                if vs:
+                    k += 1
+                    ctx.check(vs <= {"Prod", "Unit"}, rule, "lowerer:%s:%s" % (short, "+".join(sorted(vs))), "Lowerer::%s inspects the type "
+                              "former(s) %s: the checker numbers the components of a product along the right spine of Prod only" % (short, sorted(vs)),
+                              [facts.bodies()[fn]["loc"][0], a["ln"]], detail={"formers": sorted(vs)})
+        helpers = sorted({(H.callee(c) or "").split("::")[-1] for c in H.walk(h["body"]) if H.kind(c) in ("Call", "MethodCall")
+                          and (H.callee(c) or "").startswith("zydeco_stackir::sps::lower::Lowerer::")} - {"product_arity", "product_fields", "field_class"})
+        ctx.check(k >= 1 and not helpers, rule, "lowerer:%s:no-look-through" % short, "Lowerer::%s decides the layout of a tuple through the "
+                  "helper(s) %s: looking through labels / names (or anything but Prod) when testing whether the tail continues the spine "
+                  "makes the layout of a value disagree with the position the checker numbered for a named projection (`t/rest` selects "
+                  "an interior slot)" % (short, helpers), facts.bodies()[fn]["loc"], detail={"helpers": helpers})
     fn = "zydeco_statics::check::FieldProjectionResolver::product_components_k"
     h = facts.hir(fn)
     if h is None:
